@@ -443,10 +443,320 @@ pub fn run(cfg: &Cfg) -> Report {
       rep.sample(json!({"request": req, "implementation": obs, "model_and_spec": ans}));
     }
   }
+  variants_family(cfg, &mut rep, &mut model, &mut rng);
   server_family(cfg, &mut rep, &mut model, &mut rng, &alpha);
   rep.exhaustive = true;
   rep.model_requests = model.requests;
   rep
+}
+
+// ------------------------------------------------------------------------------------------
+// family `variants`: a pool of documents in which every (namespace, name) has building and non-building variants
+// ------------------------------------------------------------------------------------------
+
+/// A document of the pool: key `k` (index into `VKEYS`) and variant `v` (index into the variant list).
+#[derive(Clone, Copy, Debug, PartialEq)]
+struct VDoc {
+  k: usize,
+  v: usize,
+}
+
+#[derive(Clone, Copy, Debug, PartialEq)]
+enum VOp {
+  Add(VDoc),
+  Replace(VDoc),
+  Remove(usize),
+  Clear,
+  Deploy,
+}
+
+/// K0 and K1 are disjoint, K2 has the namespace of K0 and the name of K1.
+const VKEYS: [(&str, &str); 3] = [("va1", "vn1"), ("va2", "vn2"), ("va1", "vn2")];
+
+/// Building variants: the body and the text of the value of its decision `D` (written out, not computed).
+const VGOOD: [(&str, &str); 2] = [
+  (
+    r##"
+  <decision name="D" id="_d"><variable typeRef="number" name="D"/>
+    <literalExpression><text>1 + 1</text></literalExpression></decision>"##,
+    "2",
+  ),
+  (
+    r##"
+  <inputData name="I" id="_i"><variable typeRef="number" name="I"/></inputData>
+  <decision name="D" id="_d"><variable typeRef="number" name="D"/>
+    <informationRequirement id="_r"><requiredInput href="#_i"/></informationRequirement>
+    <literalExpression><text>if I = null then 11 else I</text></literalExpression></decision>"##,
+    "11",
+  ),
+];
+
+/// The abstract workspace of the property text, with the variant of every stored document: the reference the
+/// implementation's answers are compared with after every operation.
+#[derive(Default, Clone)]
+struct VRef {
+  stored: Vec<VDoc>,
+  /// name → variant, for the models deployed (and not modified since)
+  evaluable: Vec<(usize, VDoc)>,
+}
+
+impl VRef {
+  fn remove(&mut self, k: usize) {
+    let (ns, n) = VKEYS[k];
+    self.stored.retain(|d| VKEYS[d.k].0 != ns && VKEYS[d.k].1 != n);
+    self.evaluable.clear();
+  }
+  fn add(&mut self, d: VDoc) -> bool {
+    let (ns, n) = VKEYS[d.k];
+    if self.stored.iter().any(|e| VKEYS[e.k].0 == ns || VKEYS[e.k].1 == n) {
+      return false; // a rejected add is not a modification
+    }
+    self.stored.push(d);
+    self.evaluable.clear();
+    true
+  }
+  fn step(&mut self, op: &VOp, n_good: usize) -> bool {
+    match op {
+      VOp::Add(d) => self.add(*d),
+      VOp::Replace(d) => {
+        self.remove(d.k);
+        self.add(*d)
+      }
+      VOp::Remove(k) => {
+        self.remove(*k);
+        true
+      }
+      VOp::Clear => {
+        self.stored.clear();
+        self.evaluable.clear();
+        true
+      }
+      VOp::Deploy => {
+        self.evaluable = self.stored.iter().filter(|d| d.v < n_good).map(|d| (d.k, *d)).collect();
+        true
+      }
+    }
+  }
+}
+
+/// Histories over a pool of documents in which for every (namespace, name) there are two variants that build
+/// (with different values of the decision `D`) and several that do not (invalid FEEL text, two decisions requiring
+/// each other, a type that refers to itself, a required input that does not exist): after **every** operation of
+/// every history the answer of the operation and the value — or the refusal — of `D` for every name are those of
+/// the abstract workspace; the final stored list, results and evaluable set are also those of `Dmn.WS.Spec`.
+/// Exhaustive over a 16-operation alphabet to length 3 (quick) / 5 (thorough), every history of the shapes
+/// `m deploy m deploy`, `m m deploy m deploy`, `m deploy m m deploy` (m: a modification), random longer ones over
+/// the whole pool.
+fn variants_family(cfg: &Cfg, rep: &mut Report, model: &mut Model, rng: &mut Rng) {
+  let thorough = cfg.tier == "thorough";
+  // the non-building variants: only those the floor (child processes, above) found to answer Err on this tree;
+  // one that builds or kills the process has been reported there
+  let mut bad: Vec<(&str, &str)> = vec![];
+  for (what, body) in [
+    ("invalid FEEL text", BAD_BODIES[0]),
+    (MUST_FAIL_BODIES[0].0, MUST_FAIL_BODIES[0].1),
+    (MUST_FAIL_BODIES[3].0, MUST_FAIL_BODIES[3].1),
+    ("a required input that does not exist", BAD_BODIES[1]),
+  ] {
+    let (desc, out) = crate::util::child(&["c17-build"], &model_xml("nsx", "nx", body), 60_000);
+    if desc == "ok" && out.trim() == "err" {
+      bad.push((what, body));
+    }
+  }
+  if bad.is_empty() {
+    rep.notes.push("variants: no document of the pool fails to build with an error on this tree (reported by the floor); family skipped".into());
+    return;
+  }
+  let n_good = VGOOD.len();
+  let n_var = n_good + bad.len();
+  let body_of = |v: usize| -> &str {
+    if v < n_good {
+      VGOOD[v].0
+    } else {
+      bad[v - n_good].1
+    }
+  };
+  // parsed once per document of the pool
+  let mut parsed: Vec<Vec<dmntk_model::model::Definitions>> = vec![];
+  for (ns, n) in VKEYS {
+    let mut row = vec![];
+    for v in 0..n_var {
+      match dmntk_model::parse(&model_xml(ns, n, body_of(v))) {
+        Ok(d) => row.push(d),
+        Err(e) => {
+          rep.disagree(Kind::ImplVsSpec, "variants", "a document of the pool is not read as a model", &model_xml(ns, n, body_of(v)), &e.to_string(), "Ok");
+          return;
+        }
+      }
+    }
+    parsed.push(row);
+  }
+  let show = |op: &VOp| -> String {
+    let doc = |d: &VDoc| format!("({:?}, {:?}; {})", VKEYS[d.k].0, VKEYS[d.k].1, if d.v < n_good { format!("builds, D = {}", VGOOD[d.v].1) } else { format!("does not build: {}", bad[d.v - n_good].0) });
+    match op {
+      VOp::Add(d) => format!("add{}", doc(d)),
+      VOp::Replace(d) => format!("replace{}", doc(d)),
+      VOp::Remove(k) => format!("remove({:?}, {:?})", VKEYS[*k].0, VKEYS[*k].1),
+      VOp::Clear => "clear".into(),
+      VOp::Deploy => "deploy".into(),
+    }
+  };
+  let to_op = |op: &VOp| -> Op {
+    let d = |x: &VDoc| MDef { ns: VKEYS[x.k].0.into(), name: VKEYS[x.k].1.into(), builds: x.v < n_good };
+    match op {
+      VOp::Add(x) => Op::Add(d(x)),
+      VOp::Replace(x) => Op::Replace(d(x)),
+      VOp::Remove(k) => Op::Remove(VKEYS[*k].0.into(), VKEYS[*k].1.into()),
+      VOp::Clear => Op::Clear,
+      VOp::Deploy => Op::Deploy,
+    }
+  };
+  // alphabets
+  let small_vars = [0usize, 1, n_good]; // two building, one not
+  let mut small_mods: Vec<VOp> = vec![];
+  for k in 0..2 {
+    for v in small_vars {
+      small_mods.push(VOp::Add(VDoc { k, v }));
+      small_mods.push(VOp::Replace(VDoc { k, v }));
+    }
+    small_mods.push(VOp::Remove(k));
+  }
+  let mut small_ops = small_mods.clone();
+  small_ops.push(VOp::Deploy);
+  small_ops.push(VOp::Clear);
+  let mut all_mods: Vec<VOp> = vec![VOp::Clear];
+  for k in 0..VKEYS.len() {
+    for v in 0..n_var {
+      all_mods.push(VOp::Add(VDoc { k, v }));
+      all_mods.push(VOp::Replace(VDoc { k, v }));
+    }
+    all_mods.push(VOp::Remove(k));
+  }
+  let mut histories: Vec<Vec<VOp>> = vec![];
+  // corpus: a model that does not build, deployed, then substituted by one that does (replace; remove + add; clear + add)
+  for b in n_good..n_var {
+    let (bd, gd, other) = (VDoc { k: 0, v: b }, VDoc { k: 0, v: 0 }, VDoc { k: 1, v: 1 });
+    histories.push(vec![VOp::Add(bd), VOp::Add(other), VOp::Deploy, VOp::Replace(gd), VOp::Deploy]);
+    histories.push(vec![VOp::Add(bd), VOp::Deploy, VOp::Remove(0), VOp::Add(gd), VOp::Deploy]);
+    histories.push(vec![VOp::Add(other), VOp::Add(bd), VOp::Deploy, VOp::Replace(VDoc { k: 2, v: 1 }), VOp::Deploy]);
+    histories.push(vec![VOp::Add(gd), VOp::Deploy, VOp::Replace(bd), VOp::Deploy, VOp::Replace(VDoc { k: 0, v: 1 }), VOp::Deploy]);
+  }
+  let k = small_ops.len() as u64;
+  let max_len = if thorough { 5 } else { 3 };
+  for len in 0..=max_len {
+    for mut code in 0..k.pow(len as u32) {
+      let mut h = Vec::with_capacity(len);
+      for _ in 0..len {
+        h.push(small_ops[(code % k) as usize]);
+        code /= k;
+      }
+      histories.push(h);
+    }
+  }
+  // shaped: what one deploy leaves must not influence the next
+  let mods: &[VOp] = if thorough { &all_mods } else { &small_mods };
+  for a in mods {
+    for b in mods {
+      histories.push(vec![*a, VOp::Deploy, *b, VOp::Deploy]);
+      let thirds: &[VOp] = if thorough { &small_mods } else { mods };
+      for c in thirds {
+        histories.push(vec![*a, *b, VOp::Deploy, *c, VOp::Deploy]);
+        histories.push(vec![*a, VOp::Deploy, *b, *c, VOp::Deploy]);
+      }
+    }
+  }
+  let n_random = if thorough { 30_000 } else { 1_500 };
+  for _ in 0..n_random {
+    let bound = if rng.chance(1, 10) { 60 } else { 14 };
+    let len = 2 + rng.below(bound) as usize;
+    let h: Vec<VOp> = (0..len).map(|_| if rng.chance(1, 4) { VOp::Deploy } else { *rng.pick(&all_mods) }).collect();
+    histories.push(h);
+  }
+  rep.extra.insert("variants_histories".into(), json!(histories.len()));
+  rep.extra.insert("variants_pool".into(), json!(format!("{} keys x ({} building + {} non-building variants)", VKEYS.len(), n_good, bad.len())));
+
+  let probe_names: Vec<String> = vec!["vn1".into(), "vn2".into()];
+  let reqs: Vec<String> = histories.iter().map(|h| request(&h.iter().map(to_op).collect::<Vec<_>>(), &probe_names)).collect();
+  let answers = model.ask_batch(&reqs);
+  for ((h, req), ans) in histories.iter().zip(reqs.iter()).zip(answers.iter()) {
+    let shown = h.iter().map(show).collect::<Vec<_>>().join(" ; ");
+    let input = format!("{} ;; {}", req, shown);
+    let nontrivial = h.iter().any(|o| matches!(o, VOp::Deploy)) && h.iter().any(|o| matches!(o, VOp::Add(_) | VOp::Replace(_)));
+    rep.case(&format!("variants {}", shown), nontrivial);
+    rep.hit(&format!("variants:len:{}", if h.len() > 6 { ">6".to_string() } else { h.len().to_string() }));
+    // the implementation, observed after every operation
+    let run = std::panic::catch_unwind(std::panic::AssertUnwindSafe(|| {
+      let mut w = Workspace::new(None);
+      let mut reference = VRef::default();
+      let mut results: Vec<&'static str> = vec![];
+      for (i, op) in h.iter().enumerate() {
+        let got = match op {
+          VOp::Add(d) => w.add(parsed[d.k][d.v].clone()).is_ok(),
+          VOp::Replace(d) => w.replace(parsed[d.k][d.v].clone()).is_ok(),
+          VOp::Remove(k) => {
+            w.remove(VKEYS[*k].0, VKEYS[*k].1);
+            true
+          }
+          VOp::Clear => {
+            w.clear();
+            true
+          }
+          VOp::Deploy => w.deploy().is_ok(),
+        };
+        let want = reference.step(op, n_good);
+        results.push(if got { "ok" } else { "err" });
+        if got != want {
+          return Err((i, "the operation is answered differently than by the abstract workspace".to_string(), format!("{}", if got { "Ok" } else { "Err" }), format!("{}", if want { "Ok" } else { "Err" })));
+        }
+        for name in ["vn1", "vn2"] {
+          let got = match w.evaluate_invocable(name, "D", &FeelContext::default()) {
+            Ok(v) => v.to_string(),
+            Err(_) => "not deployed".to_string(),
+          };
+          let want = match reference.evaluable.iter().find(|(k, _)| VKEYS[*k].1 == name) {
+            Some((_, d)) => VGOOD[d.v].1.to_string(),
+            None => "not deployed".to_string(),
+          };
+          if got != want {
+            let sig = if want == "not deployed" {
+              "a model can be evaluated that was not stored and building at the last deploy, or that was modified since"
+            } else if got == "not deployed" {
+              "a model stored at the last deploy that builds, not modified since, cannot be evaluated"
+            } else {
+              "evaluation answers with another document than the one stored under the name at the last deploy"
+            };
+            return Err((i, sig.to_string(), format!("D of {:?} = {}", name, got), format!("D of {:?} = {}", name, want)));
+          }
+        }
+      }
+      Ok((results, w.verif_snapshot()))
+    }));
+    match run {
+      Err(_) => rep.disagree(Kind::ImplVsSpec, "variants", "a workspace operation panics", &input, "panic", "an answer"),
+      Ok(Err((i, sig, got, want))) => rep.disagree(Kind::ImplVsSpec, "variants", &format!("variants: {}", sig), &format!("{} ;; after operation #{} ({})", input, i + 1, show(&h[i])), &got, &want),
+      Ok(Ok((_results, (defs, by_ns, by_name, evals)))) => {
+        // the final state against Dmn.WS.Spec (through the driver) and the index invariant on the implementation's own snapshot
+        let spec = Sexp::parse(ans).and_then(|s| s.as_list().and_then(|l| l.get(1).cloned()));
+        let sdefs = spec.as_ref().and_then(|s| s.as_list().and_then(|l| l.iter().find(|p| p.as_list().and_then(|x| x.first()).and_then(|x| x.as_atom()) == Some("defs")).map(|p| p.to_string())));
+        let idefs = Sexp::tagged("defs", defs.iter().map(|p| Sexp::list(vec![Sexp::atom(&p.0), Sexp::atom(&p.1)])).collect()).to_string();
+        match sdefs {
+          None => rep.disagree(Kind::ImplVsModel, "variants", "driver-error", req, &idefs, ans),
+          Some(s) if s != idefs => rep.disagree(Kind::ImplVsSpec, "variants", "variants: history leaves a different 'defs' than the abstract workspace", &input, &idefs, &s),
+          _ => {}
+        }
+        let mut want_ns: Vec<(String, (String, String))> = defs.iter().map(|d| (d.0.clone(), d.clone())).collect();
+        let mut want_name: Vec<(String, (String, String))> = defs.iter().map(|d| (d.1.clone(), d.clone())).collect();
+        want_ns.sort();
+        want_name.sort();
+        if by_ns != want_ns || by_name != want_name {
+          rep.disagree(Kind::ImplVsSpec, "variants", "variants: an index does not describe the stored list", &input, &format!("{:?} / {:?}", by_ns, by_name), &format!("{:?} / {:?}", want_ns, want_name));
+        }
+        if evals.iter().any(|e| !defs.iter().any(|d| &d.1 == e)) {
+          rep.disagree(Kind::ImplVsSpec, "variants", "variants: a model evaluator is kept for a name that is not stored", &input, &format!("{:?}", evals), &format!("a subset of the names of {:?}", defs));
+        }
+      }
+    }
+  }
 }
 
 // ------------------------------------------------------------------------------------------
